@@ -179,132 +179,40 @@ type rlocker RWMutex
 func (r *rlocker) Lock()   { (*RWMutex)(r).RLock() }
 func (r *rlocker) Unlock() { (*RWMutex)(r).RUnlock() }
 
-// Pool is a drop-in for golibs/syncutil.Pool.  With a scheduler attached it is
-// a deterministic LIFO stack; Get and Put are scheduling points and carry a
-// happens-before edge from Put(x) to the Get that returns x.
-type Pool[T any] struct {
-	real  *sync.Pool
-	newFn func() *T
+// Pool, OnceValue... : names of package sync the shim does not model.
+type Pool = sync.Pool
 
-	mu    sync.Mutex // protects stack when no scheduler is attached
-	stack []poolItem[T]
+// OnceValue mirrors sync.OnceValue.
+func OnceValue[T any](f func() T) func() T { return sync.OnceValue(f) }
 
-	// ForceNew makes the next Get return a fresh object even if the stack is
-	// not empty (an environment choice the harness explores).
-	ForceNew bool
-}
+// OnceValues mirrors sync.OnceValues.
+func OnceValues[T1, T2 any](f func() (T1, T2)) func() (T1, T2) { return sync.OnceValues(f) }
 
-type poolItem[T any] struct {
-	v  *T
-	vc []int
-}
-
-// NewPool mirrors syncutil.NewPool.
-func NewPool[T any](newFunc func() (v *T)) (p *Pool[T]) {
-	if newFunc == nil {
-		panic("nil newFunc in NewPool")
-	}
-	p = &Pool[T]{newFn: newFunc}
-	p.real = &sync.Pool{New: func() any { return newFunc() }}
-	registerPool(p)
-	return p
-}
-
-// NewSlicePool mirrors syncutil.NewSlicePool.
-func NewSlicePool[T any](l int) (p *Pool[[]T]) {
-	return NewPool(func() (v *[]T) {
-		s := make([]T, l)
-		return &s
-	})
-}
-
-// Deterministic selects, for pools used without a scheduler, between the real
-// sync.Pool (false) and the deterministic LIFO stack (true).  The stack is
-// what sequential history exploration (E2) needs: sync.Pool may drop or keep
-// objects at will.
+// Deterministic selects, for syncutil pools used without a scheduler, between
+// the real sync.Pool (false) and the deterministic LIFO stack (true).  The
+// stack is what sequential history exploration (E2) needs: sync.Pool may drop
+// or keep objects at will.
 var Deterministic bool
 
-// Get mirrors syncutil.Pool.Get.
-func (p *Pool[T]) Get() (v *T) {
+// PoolPoint is the scheduling point of a pool operation (used by the syncutil
+// shim); it returns nil when no scheduler is attached.
+func PoolPoint(get bool) *Thread {
 	s := active
 	if s == nil {
-		if !Deterministic {
-			return p.real.Get().(*T)
-		}
-		p.mu.Lock()
-		defer p.mu.Unlock()
-		return p.pop(nil)
-	}
-	t := s.point(Op{Kind: OpPoolGet})
-	return p.pop(t)
-}
-
-func (p *Pool[T]) pop(t *Thread) (v *T) {
-	if n := len(p.stack); n > 0 && !p.ForceNew {
-		it := p.stack[n-1]
-		p.stack = p.stack[:n-1]
-		if t != nil {
-			t.acquire(it.vc)
-		}
-		return it.v
-	}
-	p.ForceNew = false
-	return p.newFn()
-}
-
-// Put mirrors syncutil.Pool.Put.
-func (p *Pool[T]) Put(v *T) {
-	s := active
-	if s == nil {
-		if !Deterministic {
-			p.real.Put(v)
-			return
-		}
-		p.mu.Lock()
-		defer p.mu.Unlock()
-		p.stack = append(p.stack, poolItem[T]{v: v})
-		return
-	}
-	t := s.point(Op{Kind: OpPoolPut})
-	p.stack = append(p.stack, poolItem[T]{v: v, vc: t.release()})
-}
-
-// VerifStack returns the objects currently parked in the deterministic stack,
-// bottom first.
-func (p *Pool[T]) VerifStack() (vs []*T) {
-	for _, it := range p.stack {
-		vs = append(vs, it.v)
-	}
-	return vs
-}
-
-// VerifReset empties the deterministic stack.
-func (p *Pool[T]) VerifReset() { p.stack = nil; p.ForceNew = false }
-
-var (
-	poolsMu sync.Mutex
-	pools   []any
-)
-
-func registerPool(p any) {
-	poolsMu.Lock()
-	defer poolsMu.Unlock()
-	if len(pools) > 64 {
-		pools = pools[1:]
-	}
-	pools = append(pools, p)
-}
-
-// LastPool returns the most recently created pool (the harness creates one
-// engine at a time when it needs this).
-func LastPool() any {
-	poolsMu.Lock()
-	defer poolsMu.Unlock()
-	if len(pools) == 0 {
 		return nil
 	}
-	return pools[len(pools)-1]
+	k := OpPoolPut
+	if get {
+		k = OpPoolGet
+	}
+	return s.point(Op{Kind: k})
 }
+
+// Acquire joins a released vector clock into the thread's clock.
+func (t *Thread) Acquire(vc []int) { t.acquire(vc) }
+
+// Release returns a copy of the thread's clock and advances it.
+func (t *Thread) Release() []int { return t.release() }
 
 func join(a, b []int) []int {
 	if len(b) == 0 {
